@@ -85,6 +85,13 @@ class _Lambda:
         return sub.fold(self.node.body)
 
 
+class _Repeat(Abstract):
+    """itertools.repeat(x): an endless supply of x (only meaningful zipped with something finite)"""
+
+    def __init__(self, value: Any):
+        self.value = value
+
+
 class _Partial(Abstract):
     """functools.partial(f, *args, **kwargs)"""
 
@@ -343,7 +350,21 @@ class Folder:
         if isinstance(e, ast.Call):
             return self._call(e)
         if isinstance(e, ast.JoinedStr):
-            return "<fstring>"
+            parts = []
+            for v in e.values:
+                if isinstance(v, ast.Constant):
+                    parts.append(str(v.value))
+                elif isinstance(v, ast.FormattedValue):
+                    try:
+                        x = self.fold(v.value)
+                        if isinstance(x, Abstract) and not isinstance(x, (str,)):
+                            return "<fstring>"
+                        parts.append(repr(x) if v.conversion == 114 else str(x))
+                    except Unfoldable:
+                        return "<fstring>"  # only used in messages
+                else:
+                    return "<fstring>"
+            return "".join(parts)
         if isinstance(e, (ast.ListComp, ast.SetComp, ast.GeneratorExp, ast.DictComp)):
             return self._comprehension(e)
         if isinstance(e, ast.Lambda):
@@ -616,6 +637,8 @@ class Folder:
             return iter(list(v.keys()) if isinstance(v, dict) else list(v))
         if name == "next" and len(args) in (1, 2):
             it = self.fold(args[0])
+            if isinstance(it, (list, tuple)):
+                it = iter(it)  # a lazily produced sequence that was folded eagerly
             try:
                 return next(it)
             except StopIteration:
@@ -710,7 +733,10 @@ class Folder:
         if name == "enumerate":
             return list(enumerate(self.fold(args[0]), *([self.fold(args[1])] if len(args) > 1 else [])))
         if name == "zip":
-            return list(zip(*[list(self.fold(a)) for a in args]))
+            cols = [self.fold(a) for a in args]
+            finite = [list(c) for c in cols if not isinstance(c, _Repeat)]
+            n_ = min((len(c) for c in finite), default=0)
+            return list(zip(*[([c.value] * n_ if isinstance(c, _Repeat) else list(c)) for c in cols]))
         if name == "reversed":
             return list(reversed(list(self.fold(args[0]))))
         if name in ("map", "filter") and len(args) == 2:
@@ -734,6 +760,11 @@ class Folder:
                     acc = f.call(self, [acc, v])
                 return acc
             raise Unfoldable(unparse(e))
+        if name in ("itertools.repeat", "repeat") and len(args) == 2:
+            return [self.fold(args[0])] * int(self.fold(args[1]))
+        if name in ("itertools.repeat",) and len(args) == 1:
+            v_ = self.fold(args[0])
+            return _Repeat(v_)
         if name in ("itertools.product", "itertools.combinations", "itertools.permutations", "itertools.combinations_with_replacement", "itertools.chain"):
             import itertools as _it
 
